@@ -67,6 +67,7 @@ pub struct Report {
     pub violation_count: u64,
     pub notes: BTreeSet<String>,
     pub entries: BTreeSet<String>,
+    pub covered: BTreeSet<String>,
     pub digest: u64,
 }
 
@@ -88,6 +89,7 @@ impl Report {
         self.violation_count += o.violation_count;
         self.notes.extend(o.notes);
         self.entries.extend(o.entries);
+        self.covered.extend(o.covered);
         self.digest ^= o.digest;
     }
 }
@@ -96,6 +98,8 @@ pub struct Ctx<'a> {
     pub prop: &'static str,
     pub entry: String,
     pub job: String,
+    /// workload name within the property
+    pub what: String,
     pub seed: u64,
     pub tier: Tier,
     pub profile: &'a str,
@@ -130,6 +134,13 @@ impl<'a> Ctx<'a> {
             *c += n;
         } else {
             self.rep.counters.insert(key.to_string(), n);
+        }
+    }
+    /// Marks a coverage class as observed (gates are sets of required classes).
+    #[inline]
+    pub fn cover(&mut self, class: &str) {
+        if !self.rep.covered.contains(class) {
+            self.rep.covered.insert(class.to_string());
         }
     }
     pub fn note(&mut self, s: String) {
@@ -206,9 +217,8 @@ pub fn sanitize(s: &str) -> String {
         .collect()
 }
 
-pub type JobFn = fn(&mut Ctx);
+pub type JobFn = Box<dyn Fn(&mut Ctx) + Send + Sync>;
 
-#[derive(Clone)]
 pub struct Job {
     /// catalogue entry label, or a free-form label for stand-alone workloads
     pub entry: String,
@@ -270,6 +280,7 @@ pub fn run_jobs(cfg: &RunCfg, jobs: Vec<Job>) -> RunOut {
                             prop: cfg.prop,
                             entry: job.entry.clone(),
                             job: label.clone(),
+                            what: job.what.clone(),
                             seed: cfg.seed,
                             tier: cfg.tier,
                             profile: &cfg.profile,
